@@ -521,9 +521,15 @@ package webdav
 //@ func webdav.fileInfoFromResponse(resp) (fi, err)
 //@   requires R1: resp != nil
 //@   allocates
+//@   assigns ghost:dlLast
 //@   ensures I1: old(respFailed(resp)) ==> fi == nil && err != nil && httpCode(err) == old(resp.Status.Code)
 //@   ensures I2: err == nil ==> fi != nil && fresh(fi) && old(!respFailed(resp) && len(resp.Hrefs) == 1) && fi.Path == old(resp.Hrefs[0].Path)
 //@   ensures I3: err != nil ==> fi == nil
+//@   -- C05: the mandatory properties were decoded in this call and the size is the decoded content length (decode log);
+//@   -- the same statement for the optional properties (type, tag, time) is not discharged within the time limit
+//@   ensures M1: err == nil ==> (let rt : lastDecoded("*internal.ResourceType") in rt != nil && fresh(rt))
+//@   ensures M2: err == nil && !fi.IsDir ==> (let p : lastDecoded("*internal.GetContentLength") in p != nil && fresh(p) && fi.Size == p.Length)
+//@   ensures M6: err == nil && fi.IsDir ==> fi.Size == 0 && fi.MIMEType == "" && fi.ETag == ""
 //@ func webdav.(*Client).Stat(c, ctx, name) (fi, err)
 //@   requires R1: wclientOK(c)
 //@   allocates
